@@ -325,18 +325,18 @@ Lemma remove_back_transitions r : repr_inv M r -> 1 <= rcount r ->
   | _, _ => False
   end.
 Proof.
-  intros H Hc. unfold remove_back.
-  destruct (Z.leb_spec (rcount r) 0); [lia|].
-  destruct (Z.eqb_spec (rcount r) 1) as [E|NE].
-  - destruct r; simpl in *; try contradiction; try lia. Show.
-  - destruct r as [|st|cap cnt|]; simpl in *; try lia; try contradiction.
-    + destruct H as (Hst & Hcc & Hp).
-      destruct (fast_decr st Hst ltac:(lia)) as (A & B & C). rewrite B, C. lia.
-    + destruct (Z.ltb_spec 2 cnt); destruct (Z.leb_spec cnt (cap / 4)); simpl; try (split; [lia|split; [lia|right; lia]]).
-      split; [lia|]. split; [lia|]. left.
-      unfold shrink_cap.
-      assert (4 * cnt <= cap) by (pose proof (Z.div_mod cap 4 ltac:(lia)); pose proof (Z.mod_pos_bound cap 4 ltac:(lia)); lia).
-      destruct (Z.leb_spec cap (cnt * 2)); [lia|]. destruct (Z.ltb_spec (cnt * 2) (cnt - 1)); lia.
+  intros H Hc. destruct r as [|st|cap cnt|]; unfold remove_back; simpl in *; try lia; try contradiction.
+  - destruct (Z.leb_spec (fcount_of st) 0); [lia|].
+    destruct (Z.eqb_spec (fcount_of st) 1) as [E|NE]; [exact E|].
+    destruct H as (Hst & Hcc & Hp).
+    destruct (fast_decr st Hst ltac:(lia)) as (A & B & C). rewrite B, C. lia.
+  - destruct (Z.leb_spec cnt 0); [lia|].
+    destruct (Z.eqb_spec cnt 1) as [E|NE]; [exact E|].
+    destruct (Z.ltb_spec 2 cnt); destruct (Z.leb_spec cnt (cap / 4)); simpl; try (split; [lia|split; [lia|right; lia]]).
+    split; [lia|]. split; [lia|]. left.
+    unfold shrink_cap.
+    assert (4 * cnt <= cap) by (pose proof (Z.div_mod cap 4 ltac:(lia)); pose proof (Z.mod_pos_bound cap 4 ltac:(lia)); lia).
+    destruct (Z.leb_spec cap (cnt * 2)); [lia|]. destruct (Z.ltb_spec (cnt * 2) (cnt - 1)); lia.
 Qed.
 
 (* ---- the array with its content *)
@@ -378,7 +378,7 @@ Qed.
 
 (* count <= capacity of the current representation, fast count <= maxFastCount *)
 Lemma repr_inv_count_le_cap r : repr_inv M r -> 0 <= rcount r <= rcap r /\ (is_fast r = true -> rcap r <= M).
-Proof. destruct r; simpl; intros; try contradiction; try lia. split; [lia|discriminate]. Qed.
+Proof. destruct r; simpl; intros H; try contradiction; (split; [lia|intros; try discriminate; lia]). Qed.
 
 End Inv.
 
